@@ -269,7 +269,7 @@ class History(_Limiter):
     idle gaps around the clean-up period and the eviction age, spanning several clean-up periods"""
 
     name = "history"
-    quick_n = 16000
+    quick_n = 12000
     thorough_n = 120000
 
     def gap_menu(self, cap, rate):
@@ -342,7 +342,7 @@ class Wiring(Family):
     (frozen) instant is decided like the model decides it, both on the chain and on the wire (status 44)"""
 
     name = "wiring"
-    quick_n = 1600
+    quick_n = 1200
     thorough_n = 16000
 
     def setup(self):
